@@ -171,4 +171,8 @@ def gen(tier, rng):
         add(Case('boxed.rem_mixed', [x, y], mop='boxed.rem_vartime'))
         if n != m and rng.random() < 0.1:
             add(Case('boxed.div_rem', [x, y]))      # documented panic: precisions must match
+    # --- every constant-time div_rem case is also compared against the limb-level model (Model/DivL0.v, Props/C02b.v)
+    for c in list(cs):
+        if c.rop in ('uint.div_rem', 'boxed.div_rem'):
+            add(Case(c.rop + '_l0', c.args, mop=c.rop + '_l0', dbg=c.dbg))
     return cs
